@@ -45,6 +45,15 @@ fn alternatives(c: &Creds) -> Vec<Creds> {
             if !p.is_empty() {
                 v.push(Creds::Short(p[..p.len() - p.chars().last().unwrap().len_utf8()].to_string()));
             }
+            // keys sharing a prefix of the size of a digest / of the HMAC block (RFC 2104: a key
+            // longer than the block is hashed, never cut)
+            for n in [16usize, 20, 32, 63, 64, 65, 128] {
+                if p.len() > n && p.is_char_boundary(n) {
+                    v.push(Creds::Short(p[..n].to_string()));
+                    v.push(Creds::Short(format!("{}#", &p[..n])));
+                }
+            }
+            v.push(Creds::Short(format!("{p}x")));
         }
         Creds::Long { user, realm, pass } => {
             v.push(Creds::Short(pass.clone()));
@@ -148,6 +157,45 @@ pub fn run(ctx: &Ctx) -> Report {
         wire::append_mi256(&mut b, b"some other key", 32);
         ref_sealed.push((b, c.clone(), "reference MI(correct) then MI256(wrong key)".into()));
     }
+    // (2b) key-length sweep: short-term passwords of every length 0..=140 (around the digest sizes
+    // and the 64-byte HMAC block) and long-term credentials with long parts, sealed by the real
+    // builder and by the reference serialiser
+    let mut sweep_creds: Vec<Creds> = Vec::new();
+    for len in 0..=140usize {
+        let pw: String = (0..len).map(|i| (b'a' + ((i * 7 + len) % 26) as u8) as char).collect();
+        sweep_creds.push(Creds::Short(pw));
+    }
+    for len in [0usize, 1, 30, 63, 64, 65, 100, 200] {
+        let part = |salt: usize| -> String { (0..len).map(|i| (b'A' + ((i * 3 + salt) % 26) as u8) as char).collect() };
+        sweep_creds.push(Creds::Long { user: part(1), realm: part(2), pass: part(3) });
+        sweep_creds.push(Creds::Long { user: "u".into(), realm: "r".into(), pass: part(4) });
+    }
+    for c in &sweep_creds {
+        let key = c.key();
+        let rc = real::creds(c);
+        for algo in 0..3u8 {
+            // by the reference serialiser
+            let mut b = wire::encode_msg(0, 1, tid, &[(0x8022, b"ab".to_vec())]);
+            if algo != 1 {
+                wire::append_mi(&mut b, &key);
+            }
+            if algo != 0 {
+                wire::append_mi256(&mut b, &key, 32);
+            }
+            ref_sealed.push((b, c.clone(), format!("reference key sweep algo{algo}")));
+            // by the real builder
+            let sw = stun_types::attribute::Software::new("ab").unwrap();
+            let mut mb = real::builder(0, 1, tid);
+            mb.add_attribute(&sw).unwrap();
+            if algo != 1 {
+                mb.add_message_integrity(&rc, stun_types::message::IntegrityAlgorithm::Sha1).unwrap();
+            }
+            if algo != 0 {
+                mb.add_message_integrity(&rc, stun_types::message::IntegrityAlgorithm::Sha256).unwrap();
+            }
+            sealed.push((mb.build(), c.clone(), format!("builder key sweep algo{algo}")));
+        }
+    }
     let n_sealed = sealed.len() + ref_sealed.len();
     let thorough = ctx.tier == Tier::Thorough;
     let mut all: Vec<(Vec<u8>, Creds, String, bool)> = sealed.into_iter().map(|(b, c, d)| (b, c, d, true)).collect();
@@ -213,7 +261,7 @@ pub fn run(ctx: &Ctx) -> Report {
     Report {
         acc,
         exhaustive: true,
-        rule: "8 bodies x fingerprint yes/no x 6 credentials x {SHA-1, SHA-256, both} sealed by the real builder; reference-serialised messages with SHA-256 truncated to 12..36 bytes, MI256-before-MI order and mixed correctness; on each: every single-bit flip and every byte value at every position from offset 0 through the end of the last integrity attribute, up to 10 near-miss keys; unsealed bodies x 6 credentials; distinct_nontrivial = sealed buffers".into(),
+        rule: "8 bodies x fingerprint yes/no x 8 credentials x {SHA-1, SHA-256, both} sealed by the real builder; reference-serialised messages with SHA-256 truncated to 12..36 bytes, MI256-before-MI order and mixed correctness; on each: every single-bit flip and every byte value at every position from offset 0 through the end of the last integrity attribute, up to 25 near-miss keys (case, trailing space / NUL, prefixes of 16/20/32/63/64/65/128 bytes, other credential kind, swapped parts); key-length sweep: short-term passwords of every length 0..=140 and long-term credentials with parts of 0..200 bytes x {SHA-1, SHA-256, both} x {builder, reference serialiser}; unsealed bodies x 8 credentials; distinct_nontrivial = sealed buffers".into(),
         bounds: json!({"sealed_buffers": n_sealed, "unsealed": unsealed.len(), "faults": if thorough { "single bit, all byte values, length-bit x any-bit pairs" } else { "single bit, all byte values" }}),
         assumptions: vec!["HMAC-SHA1/SHA-256 collision resistance (no forgery that needs to break the MAC is explored)".into(), "keys outside the alternative-key alphabet are not explored".into()],
         ..Default::default()
